@@ -403,6 +403,103 @@ def learn_expected(root: str) -> dict[int, Any]:
         d.stop_hard()
 
 
+
+# =========================================================================== client commands / status file lifecycle
+def replay_lifecycle(args: tuple[int, list[dict[str, Any]], str]) -> tuple[str | None, list[Any]]:
+    """One DmypyLifecycle.tla behaviour through the real `dmypy` command line."""
+    wid, hist, root = args
+    d = os.path.join(root, "lc%d" % wid)
+    os.makedirs(d, exist_ok=True)
+    sf = os.path.join(d, "st.json")
+    if os.path.exists(sf):
+        os.unlink(sf)
+    with open(os.path.join(d, "prog.py"), "w") as f:
+        f.write("x: int = 1\n")
+    pids: list[int] = []
+    seen: list[Any] = []
+
+    def cur_pid() -> int | None:
+        try:
+            with open(sf) as f:
+                return int(json.load(f)["pid"])
+        except (OSError, ValueError, KeyError):
+            return None
+
+    def pid_alive(pid: int | None) -> bool:
+        if pid is None:
+            return False
+        try:
+            os.kill(pid, 0)
+        except OSError:
+            return False
+        try:
+            with open("/proc/%d/stat" % pid) as f:
+                zombie = f.read().rsplit(")", 1)[1].split()[0] == "Z"
+        except OSError:
+            return False
+        if zombie:
+            # the daemon is an orphan re-parented to this driver (child subreaper, see main): reap it, as init
+            # would on an ordinary system -- dmypy's alive() takes an unreaped zombie for a live daemon
+            try:
+                os.waitpid(pid, os.WNOHANG)
+            except OSError:
+                pass
+            return False
+        return True
+
+    def dmypy(*a: str) -> int:
+        p = subprocess.run([PY, "-m", "mypy.dmypy", "--status-file", sf, *a], cwd=d, env=repo_env(), capture_output=True, text=True, timeout=120)
+        return p.returncode
+
+    try:
+        for i, e in enumerate(hist):
+            c = e["cmd"]
+            for p0 in pids:
+                pid_alive(p0)              # reap daemons that have exited
+            if c == "extkill":
+                pid = cur_pid()
+                if pid is not None and pid_alive(pid):
+                    os.kill(pid, signal.SIGKILL)
+                    t0 = time.time()
+                    while pid_alive(pid) and time.time() - t0 < 10:
+                        time.sleep(0.01)
+                rc = 0
+            elif c == "start":
+                for p0 in pids:
+                    pid_alive(p0)          # reap whatever died
+                rc = dmypy("start", "--", "--no-error-summary")
+            elif c == "restart":
+                rc = dmypy("restart", "--", "--no-error-summary")
+            elif c == "run":
+                rc = dmypy("run", "--", "--no-error-summary", "prog.py")
+            elif c == "check":
+                rc = dmypy("check", "prog.py")
+            else:
+                rc = dmypy(c)
+            pid = cur_pid()
+            if pid is not None and pid not in pids:
+                pids.append(pid)
+            if c in ("stop", "kill"):
+                # the process goes away asynchronously after answering / being signalled
+                t0 = time.time()
+                while any(pid_alive(p) for p in pids if p != pid or c in ("stop", "kill")) and time.time() - t0 < 10 and not e["alive"]:
+                    time.sleep(0.01)
+            live = [p for p in pids if pid_alive(p)]
+            got = {"rc": 0 if rc == 0 else 2, "alive": bool(live), "file": os.path.exists(sf)}
+            seen.append([c, got])
+            if len(live) > 1:
+                return "PROPERTY: two daemons alive for one status file after %s" % c, seen
+            want = {"rc": e["rc"], "alive": e["alive"], "file": e["file"]}
+            if got != want:
+                return "command %d (%s): real %r, specification %r" % (i, c, got, want), seen
+        return None, seen
+    finally:
+        for p in pids:
+            try:
+                os.kill(p, signal.SIGKILL)
+            except OSError:
+                pass
+
 # =========================================================================== main
 def main(argv: list[str]) -> int:
     tier, seed, replay = parse_args(argv)
@@ -541,10 +638,41 @@ def main(argv: list[str]) -> int:
         key = "serve:" + json.dumps(minimal_key(hk, rep["offsets"]))
         v.violation(key, dict(rep, kind="serve"), bad)
 
+    # ---- 5. client commands and the status file (DmypyLifecycle.tla)
+    try:
+        import ctypes
+        ctypes.CDLL(None).prctl(36, 1, 0, 0, 0)     # PR_SET_CHILD_SUBREAPER: orphaned daemons become our children
+    except Exception:
+        pass
+    sany(os.path.join(SPEC, "MC_DmypyLifecycle.tla"))
+    rl = tlc("MC_DmypyLifecycle", "MC_DmypyLifecycle.cfg")
+    if not rl.ok:
+        if rl.violated:
+            v.violation("model:DmypyLifecycle:" + rl.violated, {"trace": rl.trace_text}, "specification invariant violated")
+        else:
+            raise MachineryError("TLC DmypyLifecycle: %s" % rl.error)
+    states += rl.distinct; transitions += rl.generated
+    cov["DmypyLifecycle"] = dict(coverage_summary(rl), states=rl.distinct, transitions=rl.generated)
+    gl = tlc("MC_DmypyLifecycle", "Gen_DmypyLifecycle.cfg", workers=1, coverage=False)
+    if not gl.ok:
+        raise MachineryError("Gen DmypyLifecycle: %s %s" % (gl.violated, gl.error))
+    lh = gl.json_lines("HIST")
+    rnd.shuffle(lh)
+    cheap = [x for x in lh if not any(e["cmd"] in ("run", "check") and e["rc"] == 0 for e in x)]
+    costly = [x for x in lh if x not in cheap]
+    lchosen = (cheap[:24] + costly[:6]) if tier == "quick" else (cheap[:400] + costly[:120])
+    lifecycle_runs = 0
+    with ThreadPoolExecutor(8) as ex:
+        for (bad, seen_l), hst in zip(ex.map(replay_lifecycle, [(i, hst, root) for i, hst in enumerate(lchosen)]), lchosen):
+            lifecycle_runs += 1
+            if bad:
+                v.violation("lifecycle:" + json.dumps([e["cmd"] for e in hst]), {"kind": "lifecycle", "history": hst, "observed": seen_l}, bad)
+
     n_faulty = sum(1 for x in chosen if any(e["ev"] == "conn" and e["reply"] in ("closed", "unread", "error") for e in x))
     coverage = {
         "states": states, "transitions": transitions,
-        "traces_validated_against_impl": framing_runs + daemon_runs,
+        "traces_validated_against_impl": framing_runs + daemon_runs + lifecycle_runs,
+        "lifecycle_command_sequences_replayed": lifecycle_runs,
         "framing_behaviours_replayed": framing_runs,
         "distinct_segmentations": len(distinct_seg),
         "daemon_fault_sequences_replayed": daemon_runs,
